@@ -170,7 +170,7 @@ static Elem *do_allocate (struct Alloc *a, unsigned long n)
 {
   __CPROVER_assert (n <= ALLOC_MAX, "[C12] allocate (n) called with n > max_size ()");
   alloc_calls++;
-  if (nondet_bool ()) { THROW (EXC_BAD_ALLOC); return nondet_elem_ptr (); }
+  if (ALLOC_MAY_THROW && nondet_bool ()) { THROW (EXC_BAD_ALLOC); return nondet_elem_ptr (); }
   Elem *p = malloc (n * ESZ);
   __CPROVER_assume (p != 0);
 #define FRESHBLK1(i) __CPROVER_assume (!(SAMEOBJ (WP[i], p) && LIVE (i)));
@@ -472,6 +472,7 @@ Elem *env_copy_n__pcE_uc_pE (const Elem *first, unsigned char n, Elem *d) { retu
    whatever they held before (implicit-lifetime types); the frame is the byte ranges themselves (C13) ---------------------- */
 static void bytes_copy (void *dst, const void *src, unsigned long nbytes, int may_overlap)
 {
+  __CPROVER_assert (!CONSTEVAL, "[C08] memcpy / memmove reached during constant evaluation (not a constant expression)");
   __CPROVER_assert (ALIGNED (nbytes), "[C13] byte copy of a fraction of an element");
   if (nbytes == 0) return;
   __CPROVER_assert (__CPROVER_r_ok (src, nbytes), "[C03,C13] byte copy reads outside the source elements' storage");
